@@ -1735,6 +1735,10 @@ ssize_t ICACHE_FLASH_ATTR mqtt_unpack_response(struct mqtt_response* response, c
             rv = mqtt_unpack_unsuback_response(response, buf);
             break;
         case MQTT_CONTROL_PINGRESP:
+            /* a PINGRESP has no variable header and no payload */
+            if (response->fixed_header.remaining_length != 0) {
+                return MQTT_ERROR_MALFORMED_RESPONSE;
+            }
             return rv;
         default:
             return MQTT_ERROR_RESPONSE_INVALID_CONTROL_TYPE;
